@@ -97,7 +97,7 @@ impl<'a> Cx<'a> {
             t => return err(p.span(), format!("`Some(..)` pattern against a value of type {}", t)),
         };
         let ts = match p {
-            syn::Pat::TupleStruct(ts) if ts.path.is_ident("Some") && ts.elems.len() == 1 => ts,
+            syn::Pat::TupleStruct(ts) if ts.qself.is_none() && ts.path.is_ident("Some") && ts.elems.len() == 1 => ts,
             _ => return err(p.span(), "only `Some(x)` / `Some(&x)` patterns are supported in `if let` / `while let`"),
         };
         let b = self.elem_pattern(&ts.elems[0], &inner_ty)?;
@@ -337,7 +337,7 @@ impl<'a> Cx<'a> {
             _ => {
                 let t = match (&s.ty, p) {
                     (Ty::Int(_), q) if lit_of(q).is_some() => format!("({} =? {})", s.t, lit_of(q).unwrap()),
-                    (Ty::Ordering, syn::Pat::Path(pp)) => {
+                    (Ty::Ordering, syn::Pat::Path(pp)) if pp.qself.is_none() && pp.path.segments.iter().all(|s| s.arguments.is_none()) => {
                         let c = match pp.path.segments.last().unwrap().ident.to_string().as_str() {
                             "Equal" => "Eq",
                             "Less" => "Lt",
@@ -478,8 +478,10 @@ impl<'a> Cx<'a> {
                     return err(arm.span(), "a guard on a binding pattern is unsupported");
                 }
                 self.stmts.push(vec![]);
+                let mark = self.assign_log.len();
                 let gv = self.lower_expr(g, Some(&Ty::Bool))?;
                 let pre = self.stmts.pop().unwrap();
+                self.no_updates_since(g.span(), mark, "a match guard")?;
                 if !pre.is_empty() || gv.ty != Ty::Bool {
                     return err(g.span(), "a match guard must be an effect-free bool");
                 }
@@ -507,8 +509,11 @@ impl<'a> Cx<'a> {
         // id 0: a rule 11 loop; `break` inside it is refused
         self.loops.push(LoopCtx { id: 0, label: None });
         self.stmts.push(vec![]);
+        let mark = self.assign_log.len();
         let c = self.lower_expr(&e.cond, Some(&Ty::Bool));
         let cpre = self.stmts.pop().unwrap();
+        // the condition closure of `rs_while` only returns the bool
+        let c = c.and_then(|c| self.no_updates_since(e.cond.span(), mark, "the condition of a rule 11 `while`").map(|_| c));
         self.stmts.push(vec![]);
         let r = c.and_then(|c| self.lower_block(&e.body, None).map(|_| c));
         let body = self.stmts.pop().unwrap();
@@ -666,6 +671,12 @@ impl<'a> Cx<'a> {
                 if vars.contains(&x) {
                     return err(e.span(), "the iterator is used inside the loop that borrows it");
                 }
+                // C-FORITER: the advanced iterator only exists after the loop (the rest returned by
+                // rs_for_iter): a `break` of an enclosing loop from inside would rebuild that
+                // loop's state from the iterator as it was before this loop
+                if crate::emit::exits_other(&body, id) {
+                    return err(e.span(), "a labelled `break` out of `for .. in &mut it` (the state of the iterator would be lost)");
+                }
                 self.mark_assigned(&x);
                 LoopKind::ForIter { it: self.cn(&x), pat: pb.pat.clone() }
             }
@@ -763,9 +774,11 @@ impl<'a> Cx<'a> {
     /// an expression / block that must be effect-free, `let`s allowed: `(let x := .. in e)`
     pub fn lower_pure_lets(&mut self, e: &syn::Expr, expected: Option<&Ty>) -> R<Val> {
         self.stmts.push(vec![]);
+        let mark = self.assign_log.len();
         let v = self.lower_expr(e, expected);
         let pre = self.stmts.pop().unwrap();
         let v = v?;
+        self.no_updates_since(e.span(), mark, "an expression that must be effect-free")?;
         let mut lets = String::new();
         for s in &pre {
             match s {
@@ -783,9 +796,11 @@ impl<'a> Cx<'a> {
     /// an expression that must be effect-free
     pub fn lower_pure(&mut self, e: &syn::Expr, expected: Option<&Ty>) -> R<Val> {
         self.stmts.push(vec![]);
+        let mark = self.assign_log.len();
         let v = self.lower_expr(e, expected);
         let pre = self.stmts.pop().unwrap();
         let v = v?;
+        self.no_updates_since(e.span(), mark, "an expression that must be effect-free")?;
         if !pre.is_empty() {
             return err(e.span(), "an effect-free expression is required here");
         }
